@@ -59,8 +59,23 @@ def make_pool():
         6: ((big[::2], X[15:30]), {}),
         7: ((Y[0:10], Y[10:20], Y[20:25], Y[25:30]), {}),
         8: ((X[0:10], X[10:20]), {"xout": X[20:25], "yout": X[25:30]}),
+        9: ((Y[0:15], Y[15:30]), {}),
+        10: ((Y[0:15], Y[15:30]), {}),
     }
     return pool
+
+
+def grid_args(p, args):
+    """arguments of downsample_grid for pool member p: members 9 and 10 are
+    the pair whose non-array arguments have the same concatenated str()"""
+    x, y = args[0], args[1]
+    a = np.ravel(x) if x.ndim > 1 else x
+    b = np.ravel(y) if y.ndim > 1 else y
+    if p == 9:
+        return (a, b, 1, 0, False)
+    if p == 10:
+        return (a, b, 10, False)
+    return (a, b, int(np.size(x)) // 2 + 1, False, True)
 
 
 def functions():
@@ -74,21 +89,17 @@ def functions():
                 return km.ignore_nan_inf(c.func)
         raise RuntimeError("no Cache object found in closure")
 
-    def grid(x, y, xout=None, yout=None):
-        n = int(np.size(x)) // 2 + 1
-        return dsm.downsample_grid(np.ravel(x) if x.ndim > 1 else x,
-                                   np.ravel(y) if y.ndim > 1 else y,
-                                   n, False, True)
-
-    def grid_raw(x, y, xout=None, yout=None):
-        n = int(np.size(x)) // 2 + 1
-        return dsm.downsample_grid.func(
-            np.ravel(x) if x.ndim > 1 else x,
-            np.ravel(y) if y.ndim > 1 else y, n, False, True)
     return {1: (km.kde_histogram, raw(km.kde_histogram)),
             2: (km.kde_gauss, raw(km.kde_gauss)),
             3: (km.kde_multivariate, raw(km.kde_multivariate)),
-            4: (grid, grid_raw)}
+            4: (dsm.downsample_grid, dsm.downsample_grid.func)}
+
+
+def call_args(ctx, f, p):
+    args, kw = ctx["pool"][p]
+    if f == 4:
+        return grid_args(p, args), {}
+    return args, kw
 
 
 def outcome(fn, args, kwargs):
@@ -126,8 +137,10 @@ def _ctx():
         _CTX["fn"] = functions()
         fresh = {}
         for f, (_, rawfn) in _CTX["fn"].items():
-            for p, (args, kw) in _CTX["pool"].items():
-                cargs = [np.array(a, copy=True) for a in args]
+            for p in _CTX["pool"]:
+                args, kw = call_args(_CTX, f, p)
+                cargs = [np.array(a, copy=True) if isinstance(a, np.ndarray)
+                         else a for a in args]
                 ckw = {k: np.array(v, copy=True) for k, v in kw.items()}
                 fresh[(f, p)] = outcome(rawfn, cargs, ckw)
         _CTX["fresh"] = fresh
@@ -136,7 +149,8 @@ def _ctx():
 
 def describe(f, p, obs, fresh):
     kinds = {1: "split-args", 2: "split-args", 4: "dtype", 5: "shape",
-             6: "strided", 8: "keyword"}
+             6: "strided", 8: "keyword", 9: "scalar-adjacent",
+             10: "scalar-adjacent"}
     if obs[0] == "raised" and fresh[0] == "ok":
         return "cached call raises %s for %s argument" % (
             obs[1], kinds.get(p, "plain"))
@@ -154,7 +168,7 @@ def _replay(job):
     obs = []
     viol = None
     for i, (f, p) in enumerate(sched):
-        args, kw = ctx["pool"][p]
+        args, kw = call_args(ctx, f, p)
         o = outcome(ctx["fn"][f][0], args, kw)
         ok = same_outcome(o, ctx["fresh"][(f, p)])
         obs.append(bool(ok))
@@ -194,11 +208,15 @@ def long_sessions(ev, rep, rng, n, length):
         for i in range(length):
             f = rng.choice([1, 2, 3, 4])
             p = rng.choice(list(big_pool)) if rng.random() < 0.8 \
-                else rng.choice([1, 2, 3, 4, 5, 6, 7, 8])
+                else rng.choice([1, 2, 3, 4, 5, 6, 7, 8, 9, 10])
             args, kw = big_pool[p]
+            if f == 4:
+                args, kw = grid_args(p, args), {}
             if (f, p) not in fresh:
                 fresh[(f, p)] = outcome(
-                    ctx["fn"][f][1], [np.array(a, copy=True) for a in args],
+                    ctx["fn"][f][1],
+                    [np.array(a, copy=True) if isinstance(a, np.ndarray)
+                     else a for a in args],
                     {k: np.array(v, copy=True) for k, v in kw.items()})
             o = outcome(ctx["fn"][f][0], args, kw)
             ok = same_outcome(o, fresh[(f, p)])
@@ -231,7 +249,8 @@ def interface_mutation(ev, rep, scratch):
     for i in range(n):
         mask[i, 5:5 + 4 + i % 5, 6:6 + 5 + i % 7] = True
     data = {"deform": rs.rand(n) * 0.2, "area_um": rs.rand(n) * 100 + 20,
-            "bright_avg": rs.rand(n) * 50}
+            "bright_avg": rs.rand(n) * 50,
+            "fl1_max": (rs.rand(n) * 1000).astype(np.uint32)}
     path = scratch / "src.rtdc"
     with RTDCWriter(path, mode="reset") as hw:
         hw.store_metadata({"experiment": {"sample": "v", "run index": 1,
@@ -254,10 +273,12 @@ def interface_mutation(ev, rep, scratch):
                                      "chip region": "channel"}})
         hw.store_feature("deform", data["deform"])
         hw.store_basin("src", "file", "hdf5", [str(path)],
-                       basin_feats=["area_um", "bright_avg", "image"])
+                       basin_feats=["area_um", "bright_avg", "image",
+                                    "fl1_max"])
 
     def kinds():
-        yield "dict", dclab.new_dataset(dict(data))
+        yield "dict", dclab.new_dataset({k: v for k, v in data.items()
+                                         if k != "fl1_max"})
         yield "hdf5", dclab.new_dataset(path)
         ds = dclab.new_dataset(path)
         ds.config["filtering"]["deform min"] = 0.0
@@ -331,6 +352,101 @@ def interface_mutation(ev, rep, scratch):
                                                         else ""), kind),
                               "%s %s" % (kind, name),
                               {"kind": kind, "accessor": name}, size=1)
+
+
+def _contour_sched(job):
+    """LazyContourList with a tiny capacity: every schedule of accesses
+    (f = access style, p = event) returns the contour of that event"""
+    m, sched = job
+    from dclab.features.contour import LazyContourList, get_contour
+    from .. import gen as g
+    masks = g.mask(range(1, 7))
+    fresh = [get_contour(mk) for mk in masks]
+    cl = LazyContourList(masks, max_events=m)
+    obs, viol = [], None
+    for i, (f, p) in enumerate(sched):
+        e = (p - 1) % 5
+        if f == 1:
+            got, want = [cl[e]], [fresh[e]]
+        elif f == 2:
+            got, want = [cl[e - 6]], [fresh[e]]          # negative index
+        elif f == 3:
+            got, want = cl[e:e + 2], fresh[e:e + 2]      # slice
+        else:
+            got, want = [cl[np.int64(e)]], [fresh[e]]
+        ok = len(got) == len(want) and all(
+            np.array_equal(a, b) for a, b in zip(got, want))
+        obs.append(bool(ok))
+        if not ok and viol is None:
+            viol = ("lazy contour list returns the contour of another event",
+                    "capacity %d step %d access style %d event %d after %s"
+                    % (m, i, f, e, [list(x) for x in sched[:i]]), i)
+    return {"contour_capacity": m, "schedule": [list(x) for x in sched],
+            "fresh_equal": obs}, viol
+
+
+READ_STYLES = {
+    1: lambda fo: np.array(fo[:], copy=True),
+    2: lambda fo: np.asarray(fo, dtype=np.float32),
+    3: lambda fo: np.array(fo[2:7], copy=True),
+    4: lambda fo: np.array([fo.min(), fo.max(), fo.mean()]),
+}
+READ_TARGETS = {1: ("hdf5", "deform"), 2: ("hdf5", "area_um"),
+                3: ("child", "deform"), 4: ("child", "area_um"),
+                5: ("basin", "area_um"), 6: ("basin", "bright_avg"),
+                7: ("hdf5", "bright_avg"), 8: ("child", "bright_avg"),
+                9: ("hdf5", "fl1_max"), 10: ("basin", "fl1_max")}
+
+
+def _open_kinds(root):
+    import dclab
+    out = {"hdf5": dclab.new_dataset(root / "src.rtdc")}
+    par_ = dclab.new_dataset(root / "src.rtdc")
+    par_.config["filtering"]["deform min"] = 0.0
+    par_.config["filtering"]["deform max"] = 0.15
+    par_.apply_filter()
+    out["child"] = dclab.new_dataset(par_)
+    out["basin"] = dclab.new_dataset(root / "basin.rtdc")
+    return out
+
+
+_FRESH_READS = {}
+
+
+def _read_sched(job):
+    """reads of cached feature arrays in every order and access style equal
+    the same read on a freshly opened dataset"""
+    root, sched = job
+    if not _FRESH_READS:
+        for p, (kind, feat) in READ_TARGETS.items():
+            for f, fn in READ_STYLES.items():
+                dss = _open_kinds(root)
+                try:
+                    _FRESH_READS[(f, p)] = ("ok", fn(dss[kind][feat]))
+                except Exception as exc:
+                    _FRESH_READS[(f, p)] = ("raised", type(exc).__name__)
+    dss = _open_kinds(root)
+    obs, viol = [], None
+    for i, (f, p) in enumerate(sched):
+        kind, feat = READ_TARGETS[p]
+        try:
+            got = ("ok", READ_STYLES[f](dss[kind][feat]))
+        except Exception as exc:
+            got = ("raised", type(exc).__name__)
+        want = _FRESH_READS[(f, p)]
+        ok = got[0] == want[0] and (
+            got[1] == want[1] if got[0] == "raised" else (
+                got[1].dtype == want[1].dtype and np.array_equal(
+                    got[1], want[1], equal_nan=True)))
+        obs.append(bool(ok))
+        if not ok and viol is None:
+            viol = ("feature read differs from the same read on a fresh "
+                    "dataset (%s)" % kind,
+                    "step %d style %d on %s[%s] after %s: %s vs %s" % (
+                        i, f, kind, feat, [list(x) for x in sched[:i]],
+                        str(got)[:120], str(want)[:120]), i)
+    return {"reads": [[f, READ_TARGETS[p][0], READ_TARGETS[p][1]]
+                      for f, p in sched], "fresh_equal": obs}, viol
 
 
 def _filehash(job):
@@ -413,6 +529,19 @@ def main(tier, seed, replay=None):
         if viol:
             rep.violation(viol[0], viol[1], case, size=viol[2])
 
+    # 2b. the same schedules drive the lazily cached contours (capacity 2, 3)
+    scheds = sorted({tuple((x["f"], x["p"]) for x in h)
+                     for h in res.tagged("H")})
+    cjobs = [(m, sc) for sc in scheds for m in (2, 3)]
+    if tier == "quick":
+        cjobs = cjobs[seed % 2::2]
+    for case, viol in par.pmap(_contour_sched, cjobs, chunk=300):
+        ev.traces += 1
+        ev.case(case, nontrivial=len({x[1] for x in case["schedule"]})
+                < len(case["schedule"]))
+        if viol:
+            rep.violation(viol[0], viol[1], case, size=viol[2])
+
     # 3. code -> spec style long sessions at the real capacity
     rng = random.Random(seed * 31 + 17)
     long_sessions(ev, rep, rng, 3 if tier == "quick" else 30,
@@ -438,6 +567,15 @@ def main(tier, seed, replay=None):
                               size=badidx[0])
         # 5. dataset interface
         interface_mutation(ev, rep, scratch)
+        # 6. cached feature arrays: all read schedules vs fresh datasets
+        rjobs = [(scratch, sc) for sc in scheds]
+        if tier == "quick":
+            rjobs = rjobs[seed % 4::4]
+        for case, viol in par.pmap(_read_sched, rjobs, chunk=100):
+            ev.traces += 1
+            ev.case(case, nontrivial=True)
+            if viol:
+                rep.violation(viol[0], viol[1], case, size=viol[2])
     finally:
         shutil.rmtree(scratch, ignore_errors=True)
     return rep.finish()
